@@ -324,6 +324,7 @@ type c12Call struct {
 	pool  *x509.CertPool
 	times [5]time.Time
 	name  string
+	pre   func() // a change of what the PCS serves, made before this call
 }
 
 func (c *c12Call) apply(o *verify.Options) {
@@ -343,7 +344,7 @@ func c12History(r *core.Run) {
 		n := 2 + t.Draw(5)
 		var worlds []*world.World
 		for i := 0; i < 1+t.Draw(3); i++ {
-			worlds = append(worlds, world.NewWorld(t, world.Cfg{AuthLen: 0}))
+			worlds = append(worlds, world.NewWorld(t, world.Cfg{AuthLen: 0, NetLat: -1}))
 		}
 		var calls []c12Call
 		for i := 0; i < n; i++ {
@@ -367,7 +368,36 @@ func c12History(r *core.Run) {
 				}
 			}
 			level := t.Draw(4)
-			calls = append(calls, c12Call{w: w, raw: raw, level: level, pool: pool, times: times, name: fmt.Sprintf("%s%d:%s@%s/%s", tag, i, w.CAID, optNames[level], fault)})
+			// between two calls the PCS may start serving something else for this platform (a new CRL that
+			// revokes the leaf, a TCB Info whose matching level is no longer UpToDate, or the original again):
+			// every verification is judged on what is served when it runs
+			var pre func()
+			if t.Chance(1, 3) {
+				switch t.Draw(3) {
+				case 0:
+					pre = func() { w.PckCrl.Revoked = append(w.PckCrl.Revoked, w.LeafSerial()); w.Publish() }
+					fault += "+pcs-now-revokes-leaf"
+				case 1:
+					pre = func() { w.Tcb.Levels[w.LevelIdx].Status = "OutOfDate"; w.Publish() }
+					fault += "+pcs-now-out-of-date"
+				case 2:
+					ls := w.LeafSerial()
+					pre = func() {
+						var keep []*big.Int
+						for _, x := range w.PckCrl.Revoked {
+							if x.Cmp(ls) != 0 {
+								keep = append(keep, x)
+							}
+						}
+						w.PckCrl.Revoked = keep
+						w.Tcb.Levels[w.LevelIdx].Status = "UpToDate"
+						w.Publish()
+					}
+					fault += "+pcs-serves-original-again"
+				}
+				r.Probe("served_data_changes_between_calls")
+			}
+			calls = append(calls, c12Call{w: w, raw: raw, level: level, pool: pool, times: times, pre: pre, name: fmt.Sprintf("%s%d:%s@%s/%s", tag, i, w.CAID, optNames[level], fault)})
 		}
 		return calls
 	}
@@ -398,6 +428,9 @@ func c12History(r *core.Run) {
 			shared := &verify.Options{}
 			for ci := range h {
 				c := &h[ci]
+				if c.pre != nil {
+					c.pre()
+				}
 				c.w.PCS.OnFetch = func(world.Request) { sched.Yield("getter") }
 				c.apply(shared)
 				o1 := verifyRaw(c.raw, shared)
@@ -498,7 +531,7 @@ func init() {
 	register(&core.Check{
 		ID:    "C12",
 		Level: "exploration",
-		Rule: "three kinds of runs. (A, half of the runs) one seeded world (platform or processor CA), honest or with one of 29 static faults (wire, endpoint, revocation, TCB status, clock, pool, signature; out-of-date copies of the root / intermediate / leaf / collateral signer / CRL issuer as carried in the quote and in issuer-chain headers while the pool holds the current root; stale CRL or TCB Info; two CRL distribution points serving different CRLs; a decoy issuer-chain header under a case-variant name), verified under all four option settings with a recording fetcher: monotonicity acc(O2)=>acc(O1)=>acc(O0), O3 rejects, the same verdicts on networks with other (simulated) service times per URL and on 4-48 plain repetitions, zero fetches without the collateral option, CRL routes only with revocation, fmspc / ca query parameters equal to what the CA put in the leaf. (B) two histories of 2-6 verifications (quotes of up to 3 worlds, flags / pool / times edited between calls, per-call wire / clock / pool faults) each through ONE options value, interleaved by the seeded scheduler at the Getter seam; every verdict compared with a fresh options value. (C) the same with Options.Now unset on the testing/synctest fake clock with jumps of hours / weeks / decades between calls. " +
+		Rule: "three kinds of runs. (A, half of the runs) one seeded world (platform or processor CA), honest or with one of 29 static faults (wire, endpoint, revocation, TCB status, clock, pool, signature; out-of-date copies of the root / intermediate / leaf / collateral signer / CRL issuer as carried in the quote and in issuer-chain headers while the pool holds the current root; stale CRL or TCB Info; two CRL distribution points serving different CRLs; a decoy issuer-chain header under a case-variant name), verified under all four option settings with a recording fetcher: monotonicity acc(O2)=>acc(O1)=>acc(O0), O3 rejects, the same verdicts on networks with other (simulated) service times per URL and on 4-48 plain repetitions, zero fetches without the collateral option, CRL routes only with revocation, fmspc / ca query parameters equal to what the CA put in the leaf. (B) two histories of 2-6 verifications (quotes of up to 3 worlds, flags / pool / times edited between calls, per-call wire / clock / pool faults, the PCS starting to serve other data for the platform between calls) each through ONE options value, interleaved by the seeded scheduler at the Getter seam; every verdict compared with a fresh options value. (C) the same with Options.Now unset on the testing/synctest fake clock with jumps of hours / weeks / decades between calls. " +
 			"distinct = (fault, CA kind, verdict vector) resp. (history length, switches) resp. (calls, expiry seen)",
 		Assumptions: []string{"number, order and repetition of fetches are not judged, only which routes may be contacted and their parameters"},
 		RealStub:    map[string]string{"verify.RawTdxQuote": "real", "pcs URL builders": "real (checked by the stub's own URL parser)", "Intel PCS": "stub (recording)", "clock": "Options.Now from the simulated clock; part C: testing/synctest fake clock read by the library's time.Now"},
@@ -509,7 +542,7 @@ func init() {
 			return 800
 		},
 		Run:         c12Run,
-		MustProbe:   []string{"processor_ca_world", "tcb_url_checked", "pckcrl_url_checked_platform", "pckcrl_url_checked_processor", "shared_options_history", "expiry_between_calls_under_default_time", "same_world_on_other_network_timings"},
+		MustProbe:   []string{"processor_ca_world", "tcb_url_checked", "pckcrl_url_checked_platform", "pckcrl_url_checked_processor", "shared_options_history", "expiry_between_calls_under_default_time", "same_world_on_other_network_timings", "served_data_changes_between_calls"},
 		SimTimeNote: "part C: fake-clock time covered by the clock-jump histories",
 	})
 }
